@@ -227,6 +227,8 @@ class Writer(object):
         last = d.split('.')[-1]
         if last in ('array',) and (d in ('np.array', 'array', 'numpy.array')) and c.args:
             a0 = c.args[0]
+            if isinstance(a0, ast.Name) and a0.id in getattr(self, 'listdefs', {}):
+                a0 = self.listdefs[a0.id]          # a list built in one or several statements: the same concatenation
             isz, kind = dt_size(kw(c, 'dtype'))
             if isinstance(a0, ast.List):
                 if len(a0.elts) == 1:
@@ -357,6 +359,20 @@ class Writer(object):
     def assign(self, st):
         t = st.targets[0]
         if isinstance(t, ast.Name):
+            # remember list-valued locals as expressions (x = [a, b]; x = x + [c] * n ...), earlier ones substituted
+            if not hasattr(self, 'listdefs'):
+                self.listdefs = {}
+            lv = st.value
+
+            def listish(e):
+                return isinstance(e, ast.List) or (isinstance(e, ast.Name) and e.id in self.listdefs) or \
+                    (isinstance(e, ast.BinOp) and isinstance(e.op, ast.Add) and listish(e.left) and listish(e.right)) or \
+                    (isinstance(e, ast.BinOp) and isinstance(e.op, ast.Mult) and (listish(e.left) or listish(e.right)))
+            if listish(lv):
+                from . import paths as _paths
+                self.listdefs[t.id] = _paths.subst(lv, dict(self.listdefs))
+            else:
+                self.listdefs.pop(t.id, None)
             v = None
             zv = st.value
             while isinstance(zv, ast.Call) and dotted(zv.func) in ('list', 'tuple') and len(zv.args) == 1:
